@@ -45,9 +45,9 @@ def inlined(prog, body, extra_opaque=(), max_callee_blocks=220, sinks=None):
         c = prog.by_name.get(key)
         if not c or len(c) != 1:
             return False
-        nb = len([1 for b in c[0].blocks.values() if not b.cleanup])
+        nb = getattr(c[0], '_orig_blocks', None) or len([1 for b in c[0].blocks.values() if not b.cleanup])
         return nb <= max_callee_blocks and _has_logic(c[0])
-    b = inline(prog, body, max_depth=5, max_blocks=2500, only=only)
+    b = inline(prog, body, max_depth=5, max_blocks=9000, only=only)
     if not os.environ.get('VERIF_NO_THREAD'):
         from .simplify import thread
         thread(b)
